@@ -18,6 +18,7 @@ structure V where
   nextMsg : Nat := 0
   deadline : Option Nat := none      -- virtual time at which the start-sending timer fires
   reAccepted : Bool := false         -- the wantlist just handed over found the previous one outstanding
+  lastOuts : List Out := []          -- what the model's last `poll` / `poll_close` produced
 
 def field (toks : List String) (key : String) : Option String :=
   (toks.find? (·.startsWith key)).map fun t => (t.drop key.length).toString
@@ -111,6 +112,7 @@ def clientWrites (outs : List Out) : Nat :=
 
 /-- One log line. `none`: accepted; `some why`: the model does not explain the line. -/
 def stepLine (v : V) (line : String) : V × Option String :=
+  let v := { v with lastOuts := [] }
   let toks := line.splitOn " "
   match toks with
   | "in" :: "send-wantlist" :: n :: _ =>
@@ -152,7 +154,7 @@ def stepLine (v : V) (line : String) : V × Option String :=
       | some false, some d => if t ≥ d then some s!"start-sending timer has not fired at {t} ms although its deadline {d} ms (5 s after the wantlist was accepted) has passed" else none
       | _, _ => none
     let (h', outs) := step v.h (.poll (envOf p))
-    let v' := { v with h := h', nextMsg := m' }
+    let v' := { v with h := h', nextMsg := m', lastOuts := outs }
     let got := showRes outs
     -- the timer is consulted exactly when the model has it armed and the client half gets that far
     let reached := got != "incoming" && v.h.client.queue.isEmpty && !v.h.client.halted
@@ -175,7 +177,7 @@ def stepLine (v : V) (line : String) : V × Option String :=
     let got := match showRes outs with
       | "pending" => "none"
       | s => s
-    ({ v with h := h' }, if got != res then some s!"poll_close returned `{res}`, the model `{got}`" else none)
+    ({ v with h := h', lastOuts := outs }, if got != res then some s!"poll_close returned `{res}`, the model `{got}`" else none)
   | ["halted"] =>
     (v, if keepAlive v.h then some "connection_keep_alive() is false, the model's client half has not halted" else none)
   | _ => (v, none)
